@@ -30,7 +30,7 @@ TRUSTED = ["h5py raw reads of pixel columns, bin1_offset and the weight columns 
 ASSUMPTIONS = ["rational pass: a float64 product of three factors differs from the exact rational product by at most 4 ulp (two roundings), "
                "weights used with divisive=True are non-zero; binary64 pass: no tolerance — Coq's primitive floats and numpy's float64 are both "
                "IEEE-754 binary64 with round-to-nearest-even, integer counts convert exactly below 2^53 and with one rounding above"]
-RESIDUE = ["`cooler dump -b` is covered by C16; NaN payloads and the sign of NaN are not compared (NaN is one class)"]
+RESIDUE = ["`cooler dump -b` is driven here through the oracle only (its text model is C16's); NaN payloads and the sign of NaN are not compared (NaN is one class)"]
 # Print Assumptions lists the kernel's primitive integers/floats as "Axioms:" (they are primitives, not ours) and, for
 # C12_float_masked_bin_gives_nan only, the standard library's IEEE statements Floats.FloatAxioms.mul_spec / div_spec
 _PRIMS = ["int", "float", "sub", "lsl", "lsr", "lor", "land", "eqb", "ltb", "opp", "abs", "mul", "div", "of_uint63", "normfr_mantissa", "frshiftexp"]
@@ -397,6 +397,83 @@ def gen_float_cases(ctx, base):
     return out
 
 
+def run_dump_cli(ctx):
+    """`cooler dump -b` (cli/dump.py annotator): balanced = count x w(bin1) x w(bin2) on every printed row, also for the
+    mirrored rows of --fill-lower, for sparse tables (fewer pixels than bins), sub-ranges, small chunks and --join"""
+    import io
+    import pandas as pd
+    import cooler
+    from click.testing import CliRunner
+    from cooler.cli import cli
+    rng = ctx.rng
+    runner = CliRunner()
+    for rep in range(4 if ctx.tier == "quick" else 12):
+        n1, n2 = rng.choice([(5, 4), (6, 6), (3, 9), (8, 2)])
+        n = n1 + n2
+        bins = pd.DataFrame({"chrom": ["chr1"] * n1 + ["chr2"] * n2, "start": [10 * k for k in range(n1)] + [10 * k for k in range(n2)],
+                             "end": [10 * k + 10 for k in range(n1)] + [10 * k + 10 for k in range(n2)]})
+        w = [float("nan") if rng.random() < 0.15 else rng.choice([0.5, 1.25, 2.0, rng.uniform(0.1, 3.0)]) for _ in range(n)]
+        bins["weight"] = w
+        cells = [(i, j) for i in range(n) for j in range(i, n)]
+        pix = sorted(rng.sample(cells, rng.choice([2, 3, 4, n - 1, n + 3, 2 * n])))      # mostly fewer pixels than bins
+        df = pd.DataFrame({"bin1_id": [p[0] for p in pix], "bin2_id": [p[1] for p in pix], "count": [rng.randint(1, 40) for _ in pix]})
+        path = str(ctx.tmp / f"dump{rep}.cool")
+        cooler.create_cooler(path, bins, df)
+        cnt = {(a, b_): c for a, b_, c in zip(df["bin1_id"], df["bin2_id"], df["count"])}
+        L1, L2 = 10 * n1, 10 * n2
+        regions = [None, ("chr1", None), ("chr2", "chr1"), (f"chr1:10-{L1}", f"chr1:0-{max(L1 - 10, 10)}"), ("chr1:0-20", "chr2"),
+                   (f"chr2:10-{L2}", "chr2:0-20")]
+        for fill in (False, True):
+            for reg in regions:
+                for k, join in ((None, False), (1, False), (2, True), (3, False)):
+                    if reg is None and k == 2:
+                        continue
+                    args = ["dump", "-b", "-H", "--na-rep", "nan", "--float-format", ".17g"]
+                    if fill:
+                        args.append("-f")
+                    if reg is not None:
+                        args += ["-r", reg[0]] + (["-r2", reg[1]] if reg[1] else [])
+                    if k is not None:
+                        args += ["-k", str(k)]
+                    if join:
+                        args.append("--join")
+                    case = {"fn": "cooler dump", "args": args, "bins": [n1, n2], "weight": [None if math.isnan(x) else x.hex() for x in w],
+                            "pixels": [[a, b_, cnt[(a, b_)]] for a, b_ in pix]}
+                    ctx.case(case, kind="cli dump -b" + (" -f" if fill else "") + (" --join" if join else ""))
+                    res = runner.invoke(cli, args + [path])
+                    if res.exit_code != 0:
+                        ctx.fail(case, {"exit": res.exit_code, "error": repr(res.exception)[:300]}, None)
+                        continue
+                    if not res.output.strip():
+                        continue      # no row printed (and no header: that is C16's known finding D18); nothing for C12 to judge
+                    try:
+                        out = pd.read_csv(io.StringIO(res.output), sep="\t", float_precision="round_trip")
+                        bad = None
+                        if "balanced" not in out.columns:
+                            bad = "no balanced column"
+                        for _, r in out.iterrows():
+                            if bad:
+                                break
+                            if join:
+                                off = {"chr1": 0, "chr2": n1}
+                                a, b_ = off[r["chrom1"]] + int(r["start1"]) // 10, off[r["chrom2"]] + int(r["start2"]) // 10
+                            else:
+                                a, b_ = int(r["bin1_id"]), int(r["bin2_id"])
+                            c = cnt.get((min(a, b_), max(a, b_)))
+                            if c is None or int(r["count"]) != c or (a > b_ and not fill):
+                                bad = f"row ({a},{b_}) is not a stored pixel (or a mirrored one without -f)"
+                                break
+                            exp = (w[a] * w[b_]) * float(c)
+                            g = float(r["balanced"])
+                            if not bits_eq(g, exp):
+                                bad = f"row ({a},{b_}): balanced {g!r} != count x w1 x w2 = {exp!r}"
+                        if bad:
+                            ctx.fail(case, {"detail": bad, "output": res.output[:600]}, None)
+                    except Exception as e:
+                        ctx.fail(case, {"error": repr(e), "output": res.output[:400]}, None)
+        os.unlink(path)
+
+
 def qlit(x):
     return "None" if x is None else "(Some " + C.q(Fraction(x)) + ")"
 
@@ -505,6 +582,7 @@ def run(ctx):
                       "chunk": c["chunk"], "options": f["options"], "form": f["form"], "window": f["window"], "binary64": True}, f, None)
     ctx.extra["binary64_coolers"] = len(fcases)
     ctx.extra["binary64_queries"] = sum(r["nq"] for r in fres)
+    run_dump_cli(ctx)
     # source pin: the three conventional divisive names
     import cooler.api as api
     ctx.case({"fn": "_4DN_DIVISIVE_WEIGHTS"}, kind="pin")
